@@ -68,12 +68,62 @@ Definition rep3 (a : N * N * N) (s : Z * Z * Z) : Prop :=
 Definition out3 (s : Z * Z * Z) : Z := let '(_, r, _) := s in r.
 Definition meas3 (a : N * N * N) : nat := let '(m, _, _) := a in pc m.
 
-Local Ltac step_norm :=
+(* other ways of clearing the lowest set bit of the mask that an edit of the source may choose:
+   mask ^= maskBit, mask -= maskBit, mask &^= maskBit  (maskBit = mask & -mask) all give mask & (mask-1) *)
+Lemma lxor_lowbit p : N.lxor (Npos p) (Npos (lowbitP p)) = clearlowP p.
+Proof.
+  induction p as [q IH|q IH|]; cbn [lowbitP clearlowP]; [reflexivity | | reflexivity].
+  change (N.lxor (Npos q~0) (Npos (lowbitP q)~0)) with (N.double (N.lxor (Npos q) (Npos (lowbitP q)))).
+  rewrite IH. reflexivity.
+Qed.
+Lemma lowbit_disjoint p : N.land (clearlowP p) (Npos (lowbitP p)) = 0%N.
+Proof.
+  induction p as [q IH|q IH|]; cbn [lowbitP clearlowP]; [reflexivity | | reflexivity].
+  change (Npos (lowbitP q)~0) with (N.double (Npos (lowbitP q))).
+  rewrite (double_bcons (clearlowP q)), (double_bcons (Npos (lowbitP q))), land_bcons, IH. reflexivity.
+Qed.
+Lemma add_lowbit p : (clearlowP p + Npos (lowbitP p))%N = Npos p.
+Proof.
+  rewrite (N.add_nocarry_lxor _ _ (lowbit_disjoint p)).
+  rewrite <- lxor_lowbit, N.lxor_assoc, N.lxor_nilpotent, N.lxor_0_r. reflexivity.
+Qed.
+Lemma sub_lowbit p : (Npos p - Npos (lowbitP p))%N = clearlowP p.
+Proof. pose proof (add_lowbit p). lia. Qed.
+Lemma lowbit_le p : (Npos (lowbitP p) <= Npos p)%N.
+Proof. pose proof (add_lowbit p). lia. Qed.
+Lemma ldiff_lowbit p : N.ldiff (Npos p) (Npos (lowbitP p)) = clearlowP p.
+Proof.
+  rewrite <- (add_lowbit p) at 1. rewrite (N.add_nocarry_lxor _ _ (lowbit_disjoint p)).
+  rewrite (N.lxor_lor _ _ (lowbit_disjoint p)).
+  apply N.bits_inj; intro i. rewrite N.ldiff_spec, N.lor_spec.
+  pose proof (f_equal (fun z => N.testbit z i) (lowbit_disjoint p)) as D. cbv beta in D.
+  rewrite N.land_spec, N.bits_0 in D.
+  destruct (N.testbit (clearlowP p) i), (N.testbit (Npos (lowbitP p)) i); cbn in *; congruence.
+Qed.
+
+Lemma of_N_ldiff a b : Z.of_N (N.ldiff a b) = Z.ldiff (Z.of_N a) (Z.of_N b).
+Proof. destruct a, b; reflexivity. Qed.
+Lemma go_andnot_U64_of_N a b : (a < 2 ^ 64)%N -> go_andnot (U 64) (Z.of_N a) (Z.of_N b) = Z.of_N (N.ldiff a b).
+Proof.
+  intro Ha. unfold go_andnot, go_wrap. rewrite <- Z.ldiff_land, <- of_N_ldiff. apply wrapU64_small.
+  apply fits64_lt. apply (fits64_sub _ a); [|apply fits64_lt; exact Ha].
+  apply N.bits_inj; intro i. rewrite N.land_spec, N.ldiff_spec.
+  destruct (N.testbit a i), (N.testbit b i); reflexivity.
+Qed.
+
+(* normal form of one iteration: everything under Z.of_N, the lowest set bit as [Npos (lowbitP p)], the mask
+   without it as [clearlowP p], whichever of the equivalent Go expressions the source uses *)
+Local Ltac step_norm p :=
   cbv beta iota zeta;
   repeat first
     [ rewrite go_neg_U64_of_N | rewrite go_shl_U64_1 | rewrite eqb_of_N_0 | rewrite if_negb | rewrite if_of_N
     | rewrite <- of_N_land | rewrite <- of_N_lor | rewrite <- of_N_lxor
-    | rewrite go_sub_U64_pred by assumption ].
+    | rewrite go_sub_U64_pred by assumption
+    | rewrite go_andnot_U64_of_N by assumption
+    | progress change ((2 ^ 64 - Npos p mod 2 ^ 64) mod 2 ^ 64)%N with (neg64 (Npos p))
+    | rewrite maskbit_eq by assumption
+    | rewrite go_sub_U64_of_N by (first [assumption | apply lowbit_le]) ];
+  rewrite ?land_pred, ?lxor_lowbit, ?sub_lowbit, ?ldiff_lowbit.
 
 Theorem xl_pdepGeneric_eq_model (x m : N) : (m < W64)%N ->
   xl_mathext_pdepGeneric (Z.of_N x) (Z.of_N m) = Some (Z.of_N (pdep_go x m)).
@@ -88,13 +138,12 @@ Proof.
   - (* step *)
     intros f [[m0 bit] r0] s [-> Hm0] Hc. subst c. cbv beta iota in Hc.
     rewrite eqb_of_N_0 in Hc. apply negb_true_iff in Hc.
-    assert (Hnz : m0 <> 0%N) by (apply N.eqb_neq; exact Hc).
-    exists (N.land m0 (m0 - 1), (bit * 2) mod W64,
-            if (N.land x bit =? 0)%N then r0 else N.lor r0 (N.land m0 (neg64 m0)))%N.
+    destruct m0 as [|p]; [discriminate|]. assert (Hnz : Npos p <> 0%N) by discriminate.
+    exists (clearlowP p, (bit * 2) mod W64, if (N.land x bit =? 0)%N then r0 else N.lor r0 (Npos (lowbitP p)))%N.
     split; [|split].
-    + subst b. step_norm. split; [reflexivity | apply land_pred_lt, Hm0].
-    + apply pc_clear_lowest, Hnz.
-    + cbn [pdep_loop]. rewrite Hc. reflexivity.
+    + subst b. step_norm p. split; [reflexivity | apply clearlow_lt, Hm0].
+    + unfold meas3, pc. pose proof (popcount_clearlow p). cbn [popcount]. lia.
+    + cbn [pdep_loop]. rewrite Hc, maskbit_eq, land_pred by exact Hm0. reflexivity.
   - split; [reflexivity | exact Hm].
   - apply pc_le_64, Hm.
   - subst c b. rewrite Hw. cbv beta iota in Hr. unfold pdep_go. rewrite Hr.
@@ -112,13 +161,12 @@ Proof.
     destruct f; cbn [pext_loop out3]; [reflexivity | rewrite Hc; reflexivity].
   - intros f [[m0 bit] r0] s [-> Hm0] Hc. subst c. cbv beta iota in Hc.
     rewrite eqb_of_N_0 in Hc. apply negb_true_iff in Hc.
-    assert (Hnz : m0 <> 0%N) by (apply N.eqb_neq; exact Hc).
-    exists (N.land m0 (m0 - 1), (bit * 2) mod W64,
-            if (N.land x (N.land m0 (neg64 m0)) =? 0)%N then r0 else N.lor r0 bit)%N.
+    destruct m0 as [|p]; [discriminate|]. assert (Hnz : Npos p <> 0%N) by discriminate.
+    exists (clearlowP p, (bit * 2) mod W64, if (N.land x (Npos (lowbitP p)) =? 0)%N then r0 else N.lor r0 bit)%N.
     split; [|split].
-    + subst b. step_norm. split; [reflexivity | apply land_pred_lt, Hm0].
-    + apply pc_clear_lowest, Hnz.
-    + cbn [pext_loop]. rewrite Hc. reflexivity.
+    + subst b. step_norm p. split; [reflexivity | apply clearlow_lt, Hm0].
+    + unfold meas3, pc. pose proof (popcount_clearlow p). cbn [popcount]. lia.
+    + cbn [pext_loop]. rewrite Hc, maskbit_eq, land_pred by exact Hm0. reflexivity.
   - split; [reflexivity | exact Hm].
   - apply pc_le_64, Hm.
   - subst c b. rewrite Hw. cbv beta iota in Hr. unfold pext_go. rewrite Hr.
